@@ -657,6 +657,17 @@ m('c10_tp_modification_keeps_old', ['C10'], 'jesse/strategies/Strategy.py',
 
                     # SUBMIT new orders
                     for o in self._take_profit:""")
+m('c10_sl_modification_price_only', ['C10'], 'jesse/strategies/Strategy.py',
+  "                if not np.array_equal(self.stop_loss, self._stop_loss):",
+  "                if not (np.shape(self.stop_loss) == np.shape(self._stop_loss) and np.array_equal(np.asarray(self.stop_loss)[:, 1], np.asarray(self._stop_loss)[:, 1])):",
+  note='a stop-loss whose quantity changed at the same price is not re-submitted')
+m('c10_close_does_not_cancel', ['C10'], 'jesse/strategies/Strategy.py',
+  "        self._broadcast('route-close-position')\n        self._execute_cancel()\n        self.on_close_position(order)",
+  "        self._broadcast('route-close-position')\n        if self.trades_count % 3 != 2:\n            self._execute_cancel()\n        self.on_close_position(order)",
+  note='every third close leaves the remaining exit orders active')
+m('c10_increase_no_reconcile', ['C10'], 'jesse/strategies/Strategy.py',
+  "        self.on_increased_position(order)\n\n        self._detect_and_handle_entry_and_exit_modifications()",
+  "        self.on_increased_position(order)")
 m('c10_market_entry_qty_rounded', ['C10'], 'jesse/strategies/Strategy.py',
   """            if jh.is_price_near(o[1], price_to_compare):
                 self.broker.buy_at_market(o[0])""", """            if jh.is_price_near(o[1], price_to_compare):
